@@ -2,5 +2,7 @@ SPECIFICATION Spec
 CONSTANTS
   Kinds = {"read", "sender", "write", "attr"}
   Forks = {"Istanbul", "Berlin", "London", "Cancun"}
+  AllocPerGas = 64
+  AllocSlack = 131072
 INVARIANTS WriteInside CanonicalAccepted Emit
 CHECK_DEADLOCK FALSE
